@@ -255,6 +255,18 @@ def run(res):
             continue
         bad = False
         for ref, obs, v in zip(r["ref"], r.get("obs") or [], r["values"]):
+            if ref.startswith("n="):
+                # a cel rule on the struct declaration plus one on the field: the NUMBER of cel entries is compared
+                evaluations += 1
+                nontrivial.add((r["ftype"], r["expr"], v))
+                want_n = int(ref[2:])
+                got_n = 0 if obs == "ok" else (obs.split(",").count("cel") if obs not in ("panic", "mutated", "other", "is-mismatch") else -1)
+                bump("reference:%d-cel-entries" % want_n)
+                if got_n != want_n:
+                    bad = True
+                    concrete.append((r, v, "the struct carries a cel rule on its declaration and another on the field: reference evaluation demands %d cel entr%s, the report has %s (%s)" % (
+                        want_n, "y" if want_n == 1 else "ies", got_n if got_n >= 0 else obs, obs), None))
+                continue
             if ref not in ("true", "false"):
                 bump("binding:reference-error")
                 continue
